@@ -346,6 +346,9 @@ class ScoredCollector(Collector):
         self.replaced_times = 0
         # Number of blocks skipped by quality optimizations (for debugging)
         self.skipped_times = 0
+        # Whether a matcher was replaced given a minimum score, which may
+        # drop matching documents that could not make it into the top N
+        self.pruned = False
 
     def sort_key(self, sub_docnum):
         return 0 - self.matcher.score()
@@ -391,6 +394,8 @@ class ScoredCollector(Collector):
                 if replacecounter == 0 or self.minscore != minscore:
                     self.matcher = matcher = matcher.replace(minscore or 0)
                     self.replaced_times += 1
+                    if minscore:
+                        self.pruned = True
                     if not matcher.is_active():
                         break
                     usequality = self._use_block_quality()
@@ -407,6 +412,8 @@ class ScoredCollector(Collector):
             # minimum required quality
             if usequality and checkquality and minscore is not None:
                 self.skipped_times += matcher.skip_to_quality(minscore)
+                if minscore:
+                    self.pruned = True
                 # Skipping ahead might have moved the matcher to the end of the
                 # posting list
                 if not matcher.is_active():
@@ -442,7 +449,9 @@ class TopCollector(ScoredCollector):
                 and self.matcher.supports_block_quality())
 
     def computes_count(self):
-        return not self._use_block_quality()
+        # The running total is only the number of matching documents if none
+        # were skipped and none were dropped by a replaced matcher
+        return not (self.pruned or self._use_block_quality())
 
     def all_ids(self):
         # Since this collector can skip blocks, it doesn't track the total
